@@ -28,6 +28,6 @@ def LossLessSwap (input : Int) (ratio : Dec) (inputScale : Nat) (outputScale : N
 def untranslated : List String := []
 
 /-- names of the translated definitions -/
-def translated : List String := ["pow10", "LossLessSwap"]
+def translated : List String := ["pow10(n)", "LossLessSwap(input,ratio,inputScale,outputScale)"]
 
 end Irismod.Gen.PureToken
